@@ -96,13 +96,16 @@ def run(tier, seed):
         escapes_needed = 0
         samples = []
         for path in glob.glob(outp + ".*"):
-            with open(path) as f:
-                for line in f:
+            if True:
+                for line in vlib.complete_lines(path):
                     p = line.split()
                     if len(p) != 3:
                         continue
-                    case, text_hex, dump = int(p[0]), p[1], p[2]
-                    raw = bytes.fromhex(text_hex)
+                    try:
+                        case, text_hex, dump = int(p[0]), p[1], p[2]
+                        raw = bytes.fromhex(text_hex)
+                    except ValueError:
+                        continue  # torn record of a worker that died (reported by absorb)
                     checked += 1
                     try:
                         text = raw.decode("utf-8")
